@@ -139,6 +139,7 @@ def _reader_job(args):
     out["q1"] = q1
     # DASH: the dash-continuation removal of decode_quoted_string covers "-" + any format effector + any run of white space
     out["dash"] = None
+    out["fold"] = None
     dc_, dq = repo.resolve_method(dcls, "decode_quoted_string")
     if dq is not None and dc_ != "PVLDecoder":
         import ast as _ast
@@ -159,15 +160,53 @@ def _reader_job(args):
                     continue
                 if pt.startswith("-"):
                     pats.append(pt)
+        # FOLD: what decode_quoted_string folds or strips is white space of the grammar only
+        wsset = set(c for c in g.whitespace if len(c) == 1)
+        wsrun = SL.star(SL.syms(wsset))
+        fold = []
+        from . import flow as _flow
+        cond_dash = False
+        for st_, conds_ in _flow.stmts_with_conds(dq.body):
+            strvars = {a.arg for a in dq.args.args[1:]} | {t_.id for x_ in _ast.walk(dq) if isinstance(x_, _ast.Assign) for t_ in x_.targets if isinstance(t_, _ast.Name)}
+            for n_ in _ast.walk(st_):
+                if isinstance(n_, _ast.Call) and norm(n_.func) in ("re.sub", "re.subn") and len(n_.args) >= 2 and isinstance(n_.args[1], _ast.Constant):
+                    try:
+                        pt = ev.fstring(n_.args[0])
+                    except PE.Unsupported:
+                        fold.append(f"`{norm(n_, 60)}`: pattern not resolvable")
+                        continue
+                    if n_.args[1].value == " ":
+                        extra_ = (SL.rx(pt) - wsrun).witnesses(2)
+                        if extra_:
+                            fold.append(f"`re.sub({pt!r}, ' ', ...)` also replaces {extra_}")
+                    if n_.args[1].value == "" and pt.startswith("-"):
+                        # the removal must not hang on a test of the text (a cheaper pre-test that knows fewer line ends)
+                        for t_, p_ in conds_:
+                            if isinstance(t_, _ast.expr) and any(isinstance(x_, _ast.Name) and x_.id in strvars for x_ in _ast.walk(t_)):
+                                cond_dash = norm(t_, 60)
+                if isinstance(n_, _ast.Call) and isinstance(n_.func, _ast.Attribute) and n_.func.attr in ("strip", "lstrip", "rstrip", "split") \
+                        and not isinstance(n_.func.value, _ast.Constant):
+                    if not n_.args and not n_.keywords:
+                        fold.append(f"`{norm(n_, 50)}` without an argument works on Python's white space (which includes \\x1c-\\x1f, \\x85, \\xa0, ...), "
+                                    "not on the grammar's")
+                    elif n_.args and n_.func.attr != "split":
+                        try:
+                            cs = ev.conc(n_.args[0])
+                            bad_ = sorted(set(cs) - wsset) if isinstance(cs, str) else None
+                            if bad_:
+                                fold.append(f"`{norm(n_, 50)}` strips {bad_}")
+                        except PE.Unsupported:
+                            pass
+        out["fold"] = fold
         if pats:
             L = SL.union([SL.rx(p_) for p_ in pats])
             fe = SL.syms([c for c in g.format_effectors if len(c) == 1])
             wsym = SL.syms([c for c in g.whitespace if len(c) == 1])
             one_fe = SL.star(fe) & SL.length_eq(1)
             want = SL.concat(SL.lit("-"), SL.concat(one_fe, SL.star(wsym)))
-            out["dash"] = {"patterns": pats, "not_removed": _w(want - L, 3)}
+            out["dash"] = {"patterns": pats, "not_removed": _w(want - L, 3), "conditional": cond_dash}
         else:
-            out["dash"] = {"patterns": [], "not_removed": ["<no dash-continuation removal found>"]}
+            out["dash"] = {"patterns": [], "not_removed": ["<no dash-continuation removal found>"], "conditional": False}
     # KW-EXCL: no block keyword (begin or end, any letter case) and no END statement is an unquoted string for the decoder
     kws = sorted(set(g.aggregation_keywords.keys()) | set(g.aggregation_keywords.values()) | set(g.end_statements))
     acc_uq = PE.accepts(rd.method("decode_unquoted_string"))
@@ -441,7 +480,32 @@ def rule_dash(repo, res, an):
                             f"with {cfg}, the dash-continuation removal {d['patterns']} leaves {d['not_removed']} in place: a string "
                             "hyphenated across a line end (CR LF, or a blank continuation line) keeps part of the line end and is folded "
                             "to a blank inside the word", witness=d["not_removed"][0], where="pvl/decoder.py"))
+        if d.get("conditional"):
+            res.oblige("DASH", f"{cfg}: the dash-continuation removal does not hang on a test of the text", ok=False)
+            res.add(Finding("DASH", f"{r['decoder']}.decode_quoted_string", f"{cfg}: removal is conditional",
+                            f"with {cfg}, the dash-continuation removal runs only when `{d['conditional']}` holds: a pre-test on the text that "
+                            "knows fewer line ends than the removal pattern (CR LF, CR, FF, VT) leaves the continuation in the string",
+                            where="pvl/decoder.py"))
     res.floor("ODL-family decoders with a dash-continuation removal", n, 2)
+
+
+def rule_fold(repo, res, an):
+    """FOLD: inside quoted strings the ODL-family decoders fold and strip white space of the grammar only (space, tab
+    and the format effectors).  Every other character -- including the characters Python's str.split()/strip() also
+    treat as white space (FS/GS/RS/US, NEL, NBSP, ...) -- is content and comes back unchanged."""
+    n = 0
+    for r in an["readers"]:
+        if r.get("fold") is None:
+            continue
+        n += 1
+        cfg = f"{r['decoder']}/{r['grammar']}"
+        ok = not r["fold"]
+        res.oblige("FOLD", f"{cfg}: decode_quoted_string folds/strips only the grammar's white space", ok=ok)
+        if not ok:
+            res.add(Finding("FOLD", f"{r['decoder']}.decode_quoted_string", f"{cfg}: folds more than the grammar's white space",
+                            f"with {cfg}: " + "; ".join(r["fold"]) + " -- such characters are legal content of a string in this dialect and "
+                            "are turned into a blank (or dropped at the ends) on load", where="pvl/decoder.py"))
+    res.floor("ODL-family decoders with white-space folding", n, 2)
 
 
 def rule_kw_excl(repo, res, an):
